@@ -111,7 +111,8 @@ class PubSubRun:
 
     # ------------------------------------------------------------------ ops
     def live_actors(self):
-        return [a for a in self.actors if a.alive and a.handshake_sent and a is not self.monitor]
+        return [a for a in self.actors if a.alive and a.handshake_sent and a is not self.monitor
+                and not getattr(a, 'protected', False)]
 
     def op_connect(self):
         ch = self.ch
